@@ -1,1 +1,1 @@
-// network peers (filled in later)
+pub mod sink;
